@@ -6,7 +6,7 @@
 import { corpus, valuesFor, kindsHistogram, h8 } from "../lib/corpus.mjs";
 import { shallow } from "../lib/localise.mjs";
 import { show, valueClass, toEjson, fromEjson } from "../lib/ejson.mjs";
-import { splitProgram, breakLink, counterpart } from "../gen/split.mjs";
+import { splitProgram, breakLink, counterpart, exportWalk } from "../gen/split.mjs";
 import { renderProgram } from "../gen/ast.mjs";
 import { nameHashDifference } from "../lib/rtdiff.mjs";
 import { loadModule, buildAll, ALL_SETTINGS } from "../lib/loader.mjs";
@@ -139,8 +139,12 @@ export async function run(ctx) {
       continue;
     }
     if (!r.parsers) {
+      // attribution: does the unresolved name sit on a chain of named re-exports that an `export *` leads back into?
+      let cause = "";
+      const m0 = /^Cannot resolve (?:type|value) '(.+)::(\w+)'$/.exec(String(r.res.diagnostics?.[0]?.message ?? ""));
+      if (m0 && exportWalk(split.files, m0[1], m0[2]) === "cycle") cause = "|export-star-leads-back-into-the-named-re-export";
       ctx.violation({
-        signature: `split-project-rejected|${variantOf(r.res)}${split.collision ? "|name-collision" : ""}`,
+        signature: `split-project-rejected|${variantOf(r.res)}${split.collision ? "|name-collision" : ""}${cause}`,
         clause: "outcome-differs",
         detail: `the single-file program compiles, the split project gives ${r.res.outcome}: ${JSON.stringify(r.res.diagnostics?.[0]?.message ?? r.res.panic ?? r.res.message ?? "")}\nlinks: ${JSON.stringify(split.links)}\n${Object.entries(split.files).map(([k, v]) => `--- ${k} ---\n${v}`).join("\n").slice(0, 2500)}`,
         replay: where,
